@@ -43,7 +43,7 @@ def component_flow(ctx, rule):
     U.check_sink(ctx, rule, fn, "port", port, {"port"}, set(), set(), site)
     U.check_sink(ctx, rule, fn, "path", path, {"path"}, {U.UNQUOTE["path"], U.U + "normpath", U.QUOTE}, set(), site)
     U.check_sink(ctx, rule, fn, "query", query, {"query"},
-                 {U.UNQUOTE["query"], U.QUOTE, U.U + "safe_qsl_iter", U.U + "safe_serialize_qsl", U.Q + "safely_unquote_qsl", U.Q + "safely_quote_qsl"}, set(), site)
+                 {U.UNQUOTE["query"], U.UNQUOTE_VALUE, U.QUOTE, U.U + "safe_qsl_iter", U.U + "safe_serialize_qsl", U.Q + "safely_unquote_qsl", U.Q + "safely_quote_qsl"}, set(), site)
     U.check_sink(ctx, rule, fn, "fragment", fragment, {"fragment"}, {U.UNQUOTE["fragment"], U.QUOTE}, set(), site)
     # mode selection: unquoted mode unescapes each component with its own table; quoted mode quotes
     for mode, assume in (("unquoted", {"quoted": False}), ("quoted", {"quoted": True})):
@@ -53,7 +53,9 @@ def component_flow(ctx, rule):
         ):
             ts = F.simplify(term, dict(assume, strip_fragment=False))
             role = U.UNQUOTE[comp] if mode == "unquoted" else U.QUOTE
-            bad = F.unguarded_paths(ts, U.is_attr(attr), F.is_call(role))
+            # a query item's key and value each pass their own table (the value's does not keep '=' escaped)
+            pred = (lambda x: F.is_call(U.UNQUOTE["query"])(x) or F.is_call(U.UNQUOTE_VALUE)(x)) if (comp == "query" and mode == "unquoted") else F.is_call(role)
+            bad = F.unguarded_paths(ts, U.is_attr(attr), pred)
             ctx.ob(rule, "%s/%s/%s-mode-applies-%s" % (fn, sink, mode, role.rpartition(".")[2]), not bad,
                    "canonicalize_url(quoted=%s): the %s reaches the result without %s" % (assume["quoted"], sink, role.rpartition(".")[2]), site)
             if mode == "unquoted":
